@@ -31,6 +31,8 @@ const (
 	c16Interval  = time.Second
 	c16TickGrace = 50 * time.Millisecond
 	c16Stall     = 25 * time.Second // an operation that normally takes microseconds made no progress for this long
+
+	c16EnoughWitnesses = 12 // a test function stops after this many violating scenarios
 )
 
 // ---------------------------------------------------------------------------------------
@@ -300,6 +302,26 @@ func (s *c16Sys) executed(tasks []c16Task) bool {
 		}
 	}
 	return true
+}
+
+// settle is called after the scenario's last Wait returned: it lets executions that are
+// still under way (a violation in themselves) finish, so that a late task is classified by
+// what happened to it. It gives up as soon as nothing can execute any more (every library
+// goroutine parked in the flusher's select): what is missing then is lost for good.
+// false = a callback was still running after 20 s.
+func (s *c16Sys) settle(all []c16Task) bool {
+	polls := 0
+	vk.WaitUntil(20*time.Second, func() bool {
+		if atomic.LoadInt32(&s.inExec) != 0 {
+			return false
+		}
+		if s.executed(all) {
+			return true
+		}
+		polls++
+		return polls%8 == 0 && c16Quiescent() && atomic.LoadInt32(&s.inExec) == 0
+	})
+	return atomic.LoadInt32(&s.inExec) == 0
 }
 
 func (s *c16Sys) snapshot() []*c16Batch {
